@@ -1,15 +1,19 @@
-/* Loop contracts of the LweKeySwitchKey constructor for the unbounded-in-n check (harness/c08_keyswitch.c, H_KSCTOR_U) */
+/* Loop contracts of the LweKeySwitchKey constructor for the unbounded-in-n check (harness/c08_keyswitch.c, H_KSCTOR_U).
+ * Pointer facts are stated as (same object, byte offset) pairs: pointer == pointer inside a loop invariant is not reliably carried by CBMC 6.11. */
 #ifndef CONTRACTS_KSCTOR_H
 #define CONTRACTS_KSCTOR_H
 extern int32_t g_p1, g_i;
+#define KSCTOR_ROW_OK (__CPROVER_same_object(self->ks1_raw[g_p1], ks0_raw) && __CPROVER_POINTER_OFFSET(self->ks1_raw[g_p1]) == __CPROVER_POINTER_OFFSET(ks0_raw) + (__CPROVER_size_t)(self->base * g_p1) * sizeof(LweSample))
+#define KSCTOR_TOP_OK (__CPROVER_same_object(self->ks[g_i], self->ks1_raw) && __CPROVER_POINTER_OFFSET(self->ks[g_i]) == __CPROVER_POINTER_OFFSET(self->ks1_raw) + (__CPROVER_size_t)(t * g_i) * sizeof(LweSample *))
 #define LOOP_LweKeySwitchKey__ctor_0(p) \
     __CPROVER_assigns(p, __CPROVER_object_whole(self->ks1_raw)) \
     __CPROVER_loop_invariant(0 <= p && p <= n * t) \
-    __CPROVER_loop_invariant((p) > g_p1 ==> self->ks1_raw[g_p1] == ks0_raw + self->base * g_p1) \
+    __CPROVER_loop_invariant((p) > g_p1 ==> KSCTOR_ROW_OK) \
     __CPROVER_decreases(n * t - p)
 #define LOOP_LweKeySwitchKey__ctor_1(p) \
     __CPROVER_assigns(p, __CPROVER_object_whole(self->ks)) \
     __CPROVER_loop_invariant(0 <= p && p <= n) \
-    __CPROVER_loop_invariant((p) > g_i ==> self->ks[g_i] == self->ks1_raw + t * g_i) \
+    __CPROVER_loop_invariant(KSCTOR_ROW_OK) \
+    __CPROVER_loop_invariant((p) > g_i ==> KSCTOR_TOP_OK) \
     __CPROVER_decreases(n - p)
 #endif
